@@ -106,6 +106,23 @@ class C08b(Obligation):
         ctx.check(out2.exc is None and out2.value == ('scope-of', node.tag), 'asking again gives the same answer')
 
 
+class MatchModel(Opaque):
+    """result of re.match(r'.*\\(', s, DOTALL): compares by identity; group(0) is the text up to the last '(' """
+
+    def __init__(self, s):
+        Opaque.__init__(self, 'match')
+        self._s = s
+
+    def group(self, n=0):
+        from pysym.core import engine, SStr, mk_str
+        import z3
+        eng = engine()
+        g, rest = eng.new_str('_matched'), eng.new_str('_after_match')
+        eng.add(z3.And(models.z(self._s) == z3.Concat(g.e, rest.e), z3.SuffixOf(z3.StringVal('('), g.e),
+                       z3.Not(z3.Contains(rest.e, z3.StringVal('(')))))
+        return g
+
+
 def _re_match_model(I, args, kw):
     """re.match(r'.*\\(', s, re.DOTALL): an opaque match object iff s contains '(' (DOTALL: any text before it)"""
     if not I.symarg(args):
@@ -114,7 +131,7 @@ def _re_match_model(I, args, kw):
     if pat == r'.*\(' and len(args) == 3 and args[2] == re.DOTALL:
         if bool(models.str_contains(s, '(')) if not isinstance(models.str_contains(s, '('), bool) \
                 else models.str_contains(s, '('):
-            return Opaque('match')
+            return MatchModel(s)
         return None
     return NotImplemented
 
@@ -165,6 +182,8 @@ class C08c(Obligation):
         if key is not None:
             ctx.check(key[1] is not None, 'the key contains the match object of the text up to the bracket',
                       known={'C08-multiline-key': cl > bl})
+            ctx.check(not models.is_strlike(key[1]),
+                      'that component compares by identity (a re.Match), never by text: no two queries share a key')
 
 
 class Clock:
